@@ -227,7 +227,9 @@ impl Gen {
         let mut sb: Vec<(Id, u128)> = vec![];
         if self.p.init_balances {
             for _ in 0..r.below(5) {
-                bb.push((r.pick(&USERS), 1 + r.below128(1_000_000)));
+                // now and then the same account in its other spelling
+                let alt = if r.chance(1, 4) { 1000 } else { 0 };
+                bb.push((r.pick(&USERS) + alt, 1 + r.below128(1_000_000)));
             }
             let mut us = USERS.to_vec();
             for _ in 0..r.below(4) {
@@ -265,6 +267,8 @@ impl Gen {
         if self.p.init_balances && r.chance(1, 2) {
             // a re-instantiation attempt with a repeated address: cw20-base rejects it
             ops.push(Op::Inst(Inst::Stsei { sender: OWNER, hub: HUB, bals: vec![(5, 3), (6, 1), (5, 4)] }));
+            // ... and one that is not in its normal spelling
+            ops.push(Op::Inst(Inst::Stsei { sender: OWNER, hub: HUB, bals: vec![(5, 3), (1006, 1)] }));
         }
         let price = r.pick(&self.p.oracle_prices);
         ops.push(Op::Env(EnvOp::Oracle(true, price)));
@@ -334,6 +338,25 @@ impl Gen {
     }
 
     pub fn next_op(&mut self, c: &Chain) -> Op {
+        // a paged read now and then: from nowhere, from 0, from a stored id, from beyond the end,
+        // with the default, a zero, a small, the maximal and an over-the-maximum page size
+        if self.rng.chance(1, 40) {
+            let top = c.hub_batch().0;
+            let start = match self.rng.below(5) {
+                0 => None,
+                1 => Some(0),
+                2 => Some(top),
+                _ => Some(self.rng.below(top + 2)),
+            };
+            let limit = match self.rng.below(7) {
+                0 => None,
+                1 => Some(0),
+                2 => Some(100),
+                3 => Some(101),
+                _ => Some(1 + self.rng.below(4) as u32),
+            };
+            return Op::Query(Query::Hist(start, limit));
+        }
         if self.p.stub_faults && self.rng.chance(1, 7) {
             let okf = !self.rng.chance(1, 2);
             let price = match self.rng.below(6) {
